@@ -8,10 +8,11 @@
    Findings 19-22 of the first round are repaired in the code (fix commits 572482a, f71365f, e224b43, 84d977e); the
    scripts follow the repaired code, the former refutations are regression examples (`C09_repaired_findings`), and the
    theorems hold without any guard.
-   Missing: `C09_reject_iff` for append / insert / item assignment and deletion as closed formulas (their refusals
-   are covered by `C09_reject_unchanged` and `C09_reject_agrees`, and by the refusal table for siblings, detach and
-   replace below); comment content / PI target assignment is proved for the generated validators only (the setters
-   validate before they assign -- checked by the harness, not modelled as operations). *)
+   `C09_reject_iff_*`: closed formulas (Conc/Reject.v: sibling_refusal, first_refusal, replace_refusal, detach_refusal,
+   append_refusal, insert_refusal, setitem_refusal, delitem_refusal) for when each single-node call is refused and with
+   which exception, on the specification side; `C09_reject_agrees` carries them to the concrete model.
+   Comment content / PI target assignment is proved for the generated validators only (the setters validate before they
+   assign -- checked by the harness, not modelled as operations). *)
 From Coq Require Import List NArith ZArith Bool.
 From Delb.Base Require Import PyStr.
 From Delb.Gen Require Import GenValidators.
@@ -54,6 +55,28 @@ Theorem C09_reject_iff_detach : forall F w x r e,
   (is_doc_root w x = true \/ (is_doc_root w x = false /\ w_parent w x = None /\ r = true)).
 Proof. exact detach_refused_iff. Qed.
 Print Assumptions C09_reject_iff_detach.
+
+(* adding children, item assignment and deletion *)
+Theorem C09_reject_iff_append : forall F w p src e,
+  snd (astep F w (OAppend p [src])) = Rejected e <-> append_refusal F w p src = Some e.
+Proof. exact append_refused_iff. Qed.
+Print Assumptions C09_reject_iff_append.
+Theorem C09_reject_iff_insert : forall F w p i src e,
+  snd (astep F w (OInsert p i [src])) = Rejected e <-> insert_refusal F w p i src = Some e.
+Proof. exact insert_refused_iff. Qed.
+Print Assumptions C09_reject_iff_insert.
+Theorem C09_reject_iff_prepend : forall F w p src e,
+  snd (astep F w (OPrepend p [src])) = Rejected e <-> insert_refusal F w p 0%Z src = Some e.
+Proof. exact prepend_refused_iff. Qed.
+Print Assumptions C09_reject_iff_prepend.
+Theorem C09_reject_iff_setitem : forall F w p i src e,
+  snd (astep F w (OSetItem p i src)) = Rejected e <-> setitem_refusal F w p i src = Some e.
+Proof. exact setitem_refused_iff. Qed.
+Print Assumptions C09_reject_iff_setitem.
+Theorem C09_reject_iff_delitem : forall F w p i e,
+  snd (astep F w (ODelItem p i)) = Rejected e <-> delitem_refusal F w p i = Some e.
+Proof. exact delitem_refused_iff. Qed.
+Print Assumptions C09_reject_iff_delitem.
 
 (* validators, regenerated from the source on every run *)
 Theorem C09_comment_validator : forall s,
